@@ -24,6 +24,7 @@ CONSTANTS Mode,        \* "MR" | "TAB"
           RuleN,       \* rules: partners per first leaf        (0 = all)
           HistN,       \* state: registry histories sampled per first leaf (MR mode only)
           CoefN,       \* coef: (v, w, p) samples per first leaf
+          QHistN,      \* state: histories WITH read-only queries sampled per first leaf and shape (MR mode only)
           EqN          \* eqsem in TAB mode: partners of the same dimension class per first leaf (0 = all)
 
 (* ------------------------------ exponents -------------------------------- *)
@@ -66,10 +67,25 @@ EditSeq == <<Ed("modify", "la", 2, "la"), Ed("modify", "la", 0, "la"), Ed("modif
 HLeafSeq == SelectSeq([x \in 1..NMR |-> x], LAMBDA x : MRLeaves[x].reg = 1 /\ PlainLeaf(x))
 Touches(e, lv) == \E r \in 1..3 : ~RIsZero(MRLeaves[lv[r]].ex[AIdx(e.sym)])
 \* a history: one or two edits; the first one touches a symbol of the leaves
-HistCase(i, j, k, p, es) == [seed |-> FALSE, law |-> "state", lv |-> <<i, j, k>>, p |-> p, q |-> E1, edits |-> es]
+\* origin = which registry object the history runs on:
+\*   "long"    registry 4, ONE long-lived object shared by all such histories (memo layers warm; edits only)
+\*   "fresh"   a registry made for this history: UnitRegistry() + the model table (nothing resolved or memoised yet: cold)
+\*   "lutcopy" a registry made for this history from a copy of registry 1's table (UnitRegistry(lut=dict(r1.lut), add_default_symbols=False))
+HistCase(i, j, k, p, es, org) == [seed |-> FALSE, law |-> "state", lv |-> <<i, j, k>>, p |-> p, q |-> E1, edits |-> es, origin |-> org]
+\* read-only queries (kind, name): prefixed names not asked for before in a fresh registry (cold), asked twice (warm),
+\* plain atoms, names that do not resolve, and the whole-table reads
+QuerySeq == <<Qy("has", "kla"), Qy("has", "Merg"), Qy("has", "Mtb"), Qy("has", "la"), Qy("has", "zzq"), Qy("has", "km"),
+              Qy("get", "kla"), Qy("get", "uma"), Qy("get", "zzq"), Qy("get", "la"), Qy("get", "kpc"),
+              Qy("unit", "Mtb"), Qy("unit", "km"), Qy("unit", "la"),
+              Qy("define", "mla"), Qy("define", "la"), Qy("define", "Merg"),
+              Qy("keys", "-"), Qy("pfx", "-"), Qy("samedim", "la"), Qy("json", "-"), Qy("id", "-"), Qy("lutcopy", "-"), Qy("dcopy", "-"),
+              Qy("pickle", "ta"), Qy("baseq", "fo"), Qy("latex", "la")>>
+\* the queries that derive a prefixed row when the name is asked for the first time
+ColdSeq == SelectSeq(QuerySeq, Resolves)
+OriginSeq == <<"fresh", "lutcopy">>
 
 VARIABLE c
-Case(law, i, j, k, p, q) == [seed |-> FALSE, law |-> law, lv |-> <<i, j, k>>, p |-> p, q |-> q, edits |-> <<>>]
+Case(law, i, j, k, p, q) == [seed |-> FALSE, law |-> law, lv |-> <<i, j, k>>, p |-> p, q |-> q, edits |-> <<>>, origin |-> "-"]
 \* initial states are seeds (law, first leaf): TLC's workers expand different seeds in parallel
 Init == c \in {[seed |-> TRUE, law |-> l, i |-> i] : l \in Laws, i \in Leaf}
 Next ==
@@ -95,7 +111,7 @@ Next ==
             \* first leaf i (of registry 1's leaves), partner sampled, divisor either sampled or the next leaf (same
             \* dimension for la/lb/lc, ta/tb, ma/mb: a pair that cancels), exponent and one or two edits sampled
             /\ Mode = "MR" /\ MRLeaves[i].reg = 1 /\ PlainLeaf(i)
-            /\ \E t \in 1..HistN, near \in BOOLEAN, two \in BOOLEAN :
+            /\ \/ \E t \in 1..HistN, near \in BOOLEAN, two \in BOOLEAN :
                  LET j == HLeafSeq[Sample(i, t, 91, Len(HLeafSeq))]
                      pos == CHOOSE x \in DOMAIN HLeafSeq : HLeafSeq[x] = i
                      k == IF near THEN HLeafSeq[(pos % Len(HLeafSeq)) + 1] ELSE HLeafSeq[Sample(i, t, 92, Len(HLeafSeq))]
@@ -103,7 +119,22 @@ Next ==
                      e1 == EditSeq[Sample(i, t, 94, Len(EditSeq))]
                      e2 == EditSeq[Sample(i, t, 95, Len(EditSeq))] IN
                  /\ Touches(e1, <<i, j, k>>)
-                 /\ c' = HistCase(i, j, k, p, IF two THEN <<e1, e2>> ELSE <<e1>>)
+                 /\ c' = HistCase(i, j, k, p, IF two THEN <<e1, e2>> ELSE <<e1>>, "long")
+               \* histories with queries, on a registry of their own: a query alone, two queries (the second may repeat
+               \* the first: warm), queries after an edit, a query before and after an edit
+               \/ \E t \in 1..QHistN, shape \in 1..4 :
+                 LET s == 4 * t + shape
+                     j == HLeafSeq[Sample(i, s, 101, Len(HLeafSeq))]
+                     k == HLeafSeq[Sample(i, s, 102, Len(HLeafSeq))]
+                     p == SimpPSeq[Sample(i, s, 103, Len(SimpPSeq))]
+                     \* (shapes 2 and 3: first a query that derives a row, then ANY read - a read that looks at the table
+                     \*  after it has grown; shapes 1 and 4: any query)
+                     q1 == IF shape \in {2, 3} THEN ColdSeq[Sample(i, s, 104, Len(ColdSeq))] ELSE QuerySeq[Sample(i, s, 104, Len(QuerySeq))]
+                     q2 == QuerySeq[Sample(i, s, 105, Len(QuerySeq))]
+                     e1 == EditSeq[Sample(i, s, 106, Len(EditSeq))]
+                     org == OriginSeq[Sample(i, s, 107, Len(OriginSeq))] IN
+                 c' = HistCase(i, j, k, p, CASE shape = 1 -> <<q1>> [] shape = 2 -> <<q1, q2>> [] shape = 3 -> <<e1, q1, q2>>
+                                              [] shape = 4 -> <<q1, e1, q2>>, org)
        [] c.law = "rules" ->
             IF RuleN = 0 THEN \E j \in Leaf : c' = Case("rules", i, j, i, E1, E1)
             ELSE \E t \in 1..RuleN : c' = Case("rules", i, Sample(i, t, 81, NLeaves), i, E1, E1)
@@ -130,7 +161,7 @@ ASSUME Mode = "MR" => PrintT(ToJson([tag |-> "MR", atoms |-> MRAtoms, leaves |->
 \* export (one line per case); in MR mode with the model-level verdict
 Export ==
   ~c.seed =>
-    PrintT(ToJson([tag |-> "CASE", law |-> c.law, lv |-> c.lv, p |-> c.p, q |-> c.q, edits |-> c.edits,
+    PrintT(ToJson([tag |-> "CASE", law |-> c.law, lv |-> c.lv, p |-> c.p, q |-> c.q, edits |-> c.edits, origin |-> c.origin,
                    prog |-> ExportProg(Prog(c.law, c.p, c.q)), pairs |-> Pairs(c.law),
                    modelfails |-> IF Mode = "MR" THEN ModelFails(c) ELSE {}]))
 \* model checking proper: the transcribed operators satisfy the C05 predicates on every case of the instance
